@@ -685,6 +685,28 @@ def make_machine(ctx):
         def delete(self, h):
             self.sim.op(["del", h])
 
+        # the same operations aimed at what is there: a file that was loaded before, a host that has entries
+        def _present(self, k):
+            hs = [h for h in HOSTS if self.sim.hk.lookup(h) is not None]
+            return hs[k % len(hs)] if hs else None
+
+        @rule(k=st.integers(0, 5))
+        def load_loaded_file_again(self, k):
+            if self.sim.loaded:
+                self.sim.op(["load", sorted(self.sim.loaded)[k % len(self.sim.loaded)]])
+
+        @rule(k=st.integers(0, 5))
+        def delete_present(self, k):
+            h = self._present(k)
+            if h is not None and not self.sim.dead:
+                self.sim.op(["del", h])
+
+        @rule(k=st.integers(0, 5), kn=keyn, via_subdict=st.booleans())
+        def replace_or_add_for_present(self, k, kn, via_subdict):
+            h = self._present(k)
+            if h is not None and not self.sim.dead:
+                self.sim.op(["set" if via_subdict else "add", h, kn])
+
         @rule()
         def reload(self):
             self.sim.op(["reload"])
